@@ -230,10 +230,15 @@ func ruleC03Prune(c *Checker) {
 			cl, ok := v.(*ssa.Call)
 			return ok && cl.Call.IsInvoke() && cl.Call.Method.Name() == "IsDir" && infoParam != nil && canon(cl.Call.Value) == ssa.Value(infoParam)
 		})
+		isDirT, _ := condEdges(fn, func(v ssa.Value) bool {
+			cl, ok := v.(*ssa.Call)
+			return ok && cl.Call.IsInvoke() && cl.Call.Method.Name() == "IsDir" && infoParam != nil && canon(cl.Call.Value) == ssa.Value(infoParam)
+		})
 		for _, r := range returnsOf(fn) {
 			for _, v := range returnValues(r, 0) {
 				if v != nil && isSkipDirValue(v) {
 					c.check(guarded(r.Block(), domT), R, name, "return SkipDir", p.Pos(r.Pos()), "only on the Dominating edge of the directory match", "a directory is pruned on a match that later negations may override (re-included files below it are lost)")
+					c.check(guarded(r.Block(), isDirT), R, name, "SkipDir only for directories", p.Pos(r.Pos()), "returned only when the walked entry itself is a directory", "filepath.SkipDir can be returned for an entry that is not a directory (e.g. a symlink to one): filepath.Walk then skips the remaining entries of the containing directory, which are neither filtered nor validated nor shipped")
 				}
 			}
 		}
